@@ -261,6 +261,14 @@ func synSetup4(args ...string) (handler.Handler4, error) {
 			return resp, true
 		case "stopnil":
 			return nil, true
+		case "racy":
+			sharedCounter++
+			return resp, false
+		case "locked":
+			sharedMu.Lock()
+			sharedCounter++
+			sharedMu.Unlock()
+			return resp, false
 		case "nak":
 			resp.UpdateOption(dhcpv4.OptMessageType(dhcpv4.MessageTypeNak))
 			addTrail4(resp, id)
